@@ -62,6 +62,9 @@ def written_by(ctx, b, memo):
                 im = cb.f.get("impl") or {}
                 if im.get("self") == R and not im.get("trait_def"):
                     out.update(written_by(ctx, cb, memo))
+                elif cb.f["crate"] == "ironplc_plc2plc" and not im.get("trait_def") and not cb.f.get("exp"):
+                    # a free function of the renderer that hands back the text to write (`fn qualifier_keyword(q) -> &'static str`)
+                    out.update(written_by(ctx, cb, memo))
     memo[b.id] = out
     return out
 
